@@ -15,10 +15,10 @@ Ill(v) == KW("ill", v, <<>>)
 (* Group "timing"   : small sets everywhere (quick)                                *)
 (*       "timing-a" : every time-step / tick / time-channel state x few clock states *)
 (*       "timing-b" : every clock / date state x few time-step states                *)
-StepsFull == {Absent, Well("dec", <<3, 100>>), Well("int", <<1, 1>>), Well("dec", <<25, 1000>>),
+StepsFull == {Absent, Well("dec", <<3, 100>>), Well("int", <<1, 1>>), Well("dec", <<25, 1000>>), Well("int", <<0, 1>>),
               Ill("alpha"), Ill("blank"), Ill("comma")}
-StepsFew == {Absent, Well("dec", <<3, 100>>), Ill("alpha")}
-TicksFull == {Absent, Well("int", <<100, 1>>), Well("dec", <<5, 10>>), Ill("alpha")}
+StepsFew == {Absent, Well("dec", <<3, 100>>), Well("int", <<0, 1>>), Ill("alpha")}       \* a zero step is a step
+TicksFull == {Absent, Well("int", <<100, 1>>), Well("dec", <<5, 10>>), Well("int", <<0, 1>>), Ill("alpha")}
 TicksFew == {Absent, Well("int", <<100, 1>>)}
 TimesFull(h) ==
        {Absent, Well("hms", <<h, 5, 9>>), Well("hms60", <<h, 59, 59, 30>>), Well("hms60", <<h, 0, 1, 59>>),
